@@ -7,7 +7,7 @@ from vlib import snap
 _FN_CACHE = {}
 
 
-def load(crates, scalar_types=None, hooks=None, primary=None, **kw):
+def load(crates, scalar_types=None, hooks=None, primary=None, dep_adts=(), **kw):
     """crates: list, first is the crate under analysis (its functions win name clashes)"""
     t0 = time.time()
     dumps = snap.get_dumps(crates)
@@ -20,6 +20,8 @@ def load(crates, scalar_types=None, hooks=None, primary=None, **kw):
         for n, f in _FN_CACHE[key].items():
             fns.setdefault(n, f)
         adts.add(json.load(open(dumps[c]['adt'])))
+    for c, pth in snap.get_dep_adts(list(dep_adts)).items():
+        adts.add(json.load(open(pth)))
     impls = mir.ImplIndex(snap.REPO)
     ex = engine.Engine(fns, adts, impls, scalar_types=scalar_types, hooks=hooks, **kw)
     ex.dumps = dumps
